@@ -69,6 +69,7 @@ _VARY_P5 = ["straight", "poly", "ortho", "noop"]
 def vary(cases):
     for i, c in enumerate(cases):
         c = dict(c)
+        c["bkl"] = (i // 7) % 5          # 1..4: a forced Brandes-Koepf layout although the positioner is another one
         c["p5"] = _VARY_P5[i % 4]
         c["p4"] = _VARY_P4[(i // 4) % 4]
         c["virt"] = (i // 16) % 2
@@ -219,7 +220,7 @@ def bend_vs_neighbour_component(tier, rng, count):
 
 
 def c14_cases(tier, rng):
-    combos_dfs = grid(p1=["dfs"], p2=K.P2S, p4=["valign"], p5=["straight"])
+    combos_dfs = grid(p1=["dfs", "dfsrand", "randdfs"], p2=K.P2S, p4=["valign"], p5=["straight"])
     combos_all = grid(p1=K.P1S, p2=K.P2S, p4=["valign"], p5=["straight"])
     for n, e, r in K.family(fam_E(tier)):
         if r["acyc"] == 1:
@@ -290,7 +291,7 @@ NAME_STYLES = {
 
 
 def c01_cases(tier, rng):
-    axes = dict(p1=["greedy", "greedyrand", "dfs"], p2=K.P2S, p4=K.P4_ALL, p5=["poly", "straight", "ortho", "noop", "splines"],
+    axes = dict(p1=["greedy", "greedyrand", "dfs", "dfsrand"], p2=K.P2S, p4=K.P4_ALL, p5=["poly", "straight", "ortho", "noop", "splines"],
                 size=["none", "fixed", "all", "some", "nomap"], pat=["het", "het2", "wide1", "odd"], ns=[0, 1, 10], ls=[0, 1, 10],
                 thor=[0, 1, -1], virt=[0, 1], names=["plain", "helper", "weird"])
 
